@@ -1564,6 +1564,9 @@ func (e *Entry) dup() *Entry {
 		ne.Extra[k] = v
 	}
 
+	// The default values may be appended to per copy, e.g. by a deviation.
+	ne.Default = append([]string(nil), e.Default...)
+
 	// The list attributes may be changed per copy, e.g. by a deviation.
 	if e.ListAttr != nil {
 		la := *e.ListAttr
